@@ -73,6 +73,8 @@ pub struct Obs {
     pub shell: String,
     /// (line as written, kind, optional, multiline)
     pub exps: Vec<(String, String, bool, bool)>,
+    /// for every expectation: does it match its own line text followed by a newline? (judged for plain `equal` lines only)
+    pub self_match: Vec<bool>,
     pub exit: Option<i32>,
     pub cfg: Cfg,
     pub line: usize,
@@ -88,6 +90,15 @@ pub fn observe(tc: &TestCase) -> Obs {
             .map(|e| {
                 let (kind, _, optional, multiline) = e.unmake();
                 (e.original_string(), kind, optional, multiline)
+            })
+            .collect(),
+        self_match: tc
+            .expectations
+            .iter()
+            .map(|e| {
+                let mut line = e.original_string().into_bytes();
+                line.push(b'\n');
+                e.matches(&line)
             })
             .collect(),
         exit: tc.exit_code,
@@ -159,6 +170,14 @@ pub fn judge(exp: &Expected, parsed: &Result<Vec<Obs>, String>) -> Option<(Strin
                 if k != gk || o != go || m != gm {
                     return bad("expectation-kind", format!("line {text:?}: expected ({k},{o},{m}), got ({gk},{go},{gm})"));
                 }
+            }
+        }
+        // an expectation line without a documented modifier is an `equal` expectation for the whole line as
+        // written: it has to match exactly that text followed by a newline
+        for ((text, gk, go, gm), ok) in g.exps.iter().zip(g.self_match.iter()) {
+            let plain_equal = gk == "equal" && !go && !gm && !text.ends_with(" (equal)") && !text.ends_with(" (eq)");
+            if plain_equal && !ok {
+                return bad("expectation-content", format!("line {text:?} was read as an equal expectation that does not match its own text"));
             }
         }
         if w.exit != g.exit {
